@@ -1,7 +1,7 @@
 """Checks of the pure codec properties: the Go loggers (harness/codec) run the real Pack/Unpack
 functions over enumerated / seeded domains and log raw records; TLC evaluates every record
 against the TLA+ reference specifications (Trace_Codec.tla)."""
-import json, os, re, subprocess, time, concurrent.futures as cf
+import json, os, re, shutil, subprocess, time, concurrent.futures as cf
 import vlib, lookupgen
 
 PLAN = {
@@ -106,6 +106,30 @@ def run_sock_model(work):
     return st, tr
 
 
+IND = {}
+
+
+def run_sock_inductive(work):
+    """Apalache: the inductive invariant of SockInd.tla (the same actions as Sock.tla, typed) for EVERY stream of up to six
+    frames of 1..64 bytes and every segmentation - base case, inductive step, and that it implies InOrderOnce."""
+    d = work.path('apalache')
+    os.makedirs(d, exist_ok=True)
+    shutil.copy(os.path.join(vlib.SPEC, 'SockInd.tla'), d)
+    res = {}
+    for name, args in (('base', ['--init=Init', '--inv=IndInv', '--length=0']), ('step', ['--init=IndInit', '--inv=IndInv', '--length=1']),
+                       ('implies_InOrderOnce', ['--init=IndInit', '--inv=InOrderOnce', '--length=0'])):
+        try:
+            p = subprocess.run(['timeout', '300', 'apalache-mc', 'check', '--cinit=ConstInit'] + args + ['SockInd.tla'], cwd=d,
+                               stdout=subprocess.PIPE, stderr=subprocess.STDOUT, text=True)
+            res[name] = 'EXITCODE: OK' in p.stdout and 'The outcome is: NoError' in p.stdout
+        except OSError:
+            res[name] = False
+    if not all(res.values()):
+        print('MODEL-NOTE: SockInd.tla: Apalache did not establish the inductive invariant (%s)' % res)
+    IND.clear()
+    IND.update(res, bounds='streams of up to 6 frames of 1..64 bytes, segments of 1..400 bytes', tool='apalache-mc 0.58 (symbolic, SMT)')
+
+
 def check(pid, tier):
     t0 = time.time()
     w = vlib.Work(pid)
@@ -148,6 +172,7 @@ def check(pid, tier):
                 states, trans = states + a, trans + b
         if PLAN[pid].get('sock'):
             states2, trans2 = run_sock_model(w)
+            run_sock_inductive(w)
             states, trans = states + states2, trans + trans2
         bad, nrec, tstates = judge_records(w, recfile, pid)
         if table_info is not None:
@@ -205,7 +230,7 @@ def check(pid, tier):
                    rule='one evaluation = one input/output record of the real codec (distinct inputs by construction of the enumeration) '
                         'evaluated by TLC against the TLA+ reference specification',
                    reference_theorems=thm, known_findings={k: len(v) for k, v in kf.items()},
-                   exhaustive=(pid in ('C11', 'C18')), real_sockets=bool(PLAN[pid].get('sock') or PLAN[pid].get('lookup') or PLAN[pid].get('extra')), lookup_table=table_info)
+                   exhaustive=(pid in ('C11', 'C18')), real_sockets=bool(PLAN[pid].get('sock') or PLAN[pid].get('lookup') or PLAN[pid].get('extra')), lookup_table=table_info, inductive_invariant=(dict(IND) if PLAN[pid].get('sock') else None))
         vlib.write_evidence(pid, tier, 'model_checking', cov, ASSUME.get(pid, []), time.time() - t0, len(viol))
         print('%s %s: %d records of the real codec evaluated by TLC; %s' % (pid, tier, nrec, 'VIOLATIONS' if viol else 'held'))
         return rc
